@@ -38,6 +38,7 @@ func (vc *VC) script(o *Oblig, prelude string, axioms []string, wantModel bool) 
 		body.WriteString(d)
 		body.WriteByte('\n')
 	}
+	_ = o.nDecl
 	for _, a := range axioms {
 		body.WriteString("(assert " + a + ")\n")
 	}
